@@ -109,6 +109,20 @@ let handle (toks : string list) : string =
                | Done (f3, cnt3) -> Buffer.add_string b "| "; dump f3 cnt3)
             end;
             Buffer.contents b))
+  | "m_ssi" :: ad :: la :: lb :: rest ->
+      let r = { rest } in
+      let n = rint r in let sigma = rfl r in let a = rmat r n n in let bm = rmat r n n in let x = rvec r n in
+      let alpha = ofl !consts.(6) in
+      (match ssi_solve opsFloat alpha (ad = "1") (la = "1") (lb = "1") (nat_of_int_e n) a bm sigma x with
+       | None -> "throw"
+       | Some y -> let b = Buffer.create 512 in pv b y; Buffer.contents b)
+  | "m_dsss" :: lo :: rest ->
+      let r = { rest } in
+      let n = rint r in let sigma = rfl r in let a = rmat r n n in let x = rvec r n in
+      let alpha = ofl !consts.(6) in
+      (match dsss_solve opsFloat alpha (lo = "1") (nat_of_int_e n) a sigma x with
+       | None -> "throw"
+       | Some y -> let b = Buffer.create 512 in pv b y; Buffer.contents b)
   | "teig" :: rest ->
       let r = { rest } in
       let n = rint r in let d = rvec r n in let sd = rvec r (n - 1) in
